@@ -924,7 +924,19 @@ fn raw_unknown(t: &Table, key: &str, bytes: &[u8]) -> String {
 fn canon_bytes(t: &Table, key: &str, bytes: &[u8]) -> String {
     match sv_from_bytes(bytes).map(|sv| sv.deserialize_as_value()) {
         Some(Ok(v)) => format!("{} unk={}", fmt_value(&v, true), raw_unknown(t, key, bytes)),
-        _ => format!("!UNDECODABLE {}", hex(bytes)),
+        _ => {
+            // not a Value (e.g. an opaque `value` field holding invalid UTF-8 was carried through):
+            // an order-insensitive fingerprint, because map/unknown-field order is arbitrary
+            let mut hist = [0u64; 256];
+            for b in bytes {
+                hist[*b as usize] += 1;
+            }
+            let mut h: u64 = 1469598103934665603;
+            for (i, c) in hist.iter().enumerate() {
+                h = (h ^ (*c).wrapping_mul(i as u64 + 1)).wrapping_mul(1099511628211);
+            }
+            format!("!UNDECODABLE len={} multiset={:016x}", bytes.len(), h)
+        }
     }
 }
 
